@@ -259,7 +259,7 @@ class Assembler:
         sig = src.text[f['sig_start']:f['body_open']].rstrip()
         body = src.text[f['body_open']:f['body_close'] + 1]
         sha = src.sha(f['sig_start'], f['body_close'] + 1)
-        opt = dict(ret=None, stub=False, twin='', rules=None, drops=[], subs=[], sigsubs=[], tail=False, free=None)
+        opt = dict(ret=None, stub=False, twin='', rules=None, drops=[], subs=[], sigsubs=[], tail=False, free=None, cuts=[])
         for o_ in opts:
             if o_ == 'stub':
                 opt['stub'] = True
@@ -275,6 +275,8 @@ class Assembler:
                 opt['rules'] = [r for r in o_[6:].split(',') if r]
             elif o_.startswith('drop='):
                 opt['drops'].append(o_[5:])
+            elif o_.startswith('cut='):
+                opt['cuts'].append(o_[4:])
             elif o_.startswith('sub='):
                 d = o_[4]
                 a, b = o_[5:].rstrip(d).split(d)
@@ -334,6 +336,12 @@ class Assembler:
         # ---- body: drops, substitutions, rewrite rules
         for d in opt['drops']:
             body, n = self._drop_stmt(body, d, log)
+        for c_ in opt['cuts']:
+            mc = re.search(c_, body)
+            if not mc:
+                raise LostAnchor('cut anchor %r lost in %s' % (c_, qn))
+            log.append(dict(rule='DROP', before=mc.group(0).strip(), after=''))
+            body = body[:mc.start()] + body[mc.end():]
         for a, b in opt['subs']:
             if a not in body:
                 raise LostAnchor('substitution anchor %r lost in %s' % (a, qn))
